@@ -86,7 +86,12 @@ def strategy_impl(draw, tier):
         dims = {"face": sub["Kx"] * sub["Ky"]}
         dims.update({e[0]: e[1] for e in sub["extra"]})
     chunks = {d: draw(compositions(L)) for d, L in dims.items()}
-    return {"kind": kind, "sub": sub, "chunks": chunks, "scheduler": draw(st.sampled_from(["synchronous", "threads"]))}
+    case = {"kind": kind, "sub": sub, "chunks": chunks, "scheduler": draw(st.sampled_from(["synchronous", "threads"]))}
+    if kind == "faces-vector":
+        # used only when the decomposition has no links at all (a simple grid: there every dimension may be chunked)
+        N = sub["N"]
+        case["spatial_chunks"] = {d: draw(compositions(N)) for d in ("xc", "xl", "yc", "yl")}
+    return case
 
 
 def strategy(tier):
@@ -174,6 +179,8 @@ def check(case, ctx):
         classes.append("uneven")
     if any(len(v) > 1 and (v[0] == 1 or v[-1] == 1) for v in chunks.values()):
         classes.append("size1-at-end")
+    if kind == "faces-vector":
+        sub = dict(sub, _spatial_chunks=case.get("spatial_chunks"))
     res = RUNNERS[kind](sub, chunks, case["scheduler"], classes, ctx)
     if res is None:
         classes.append("eager-refused")
@@ -364,6 +371,10 @@ def run_faces_vector(sub, chunks, scheduler, classes, ctx):
     has_links = any(l is not None for per in table.values() for sides in per.values() for l in sides)
     fc = gen.table_to_xgcm(C03.table_json(table)) if has_links else None
     classes.append("vector-linked" if has_links else "vector-simple")
+    if not has_links and sub.get("_spatial_chunks"):
+        chunks = dict(chunks, **sub["_spatial_chunks"])
+        if any(len(v) > 1 for v in sub["_spatial_chunks"].values()):
+            classes.append("vector-simple-core-chunked")
     grid = must_return("Grid construction", Grid, ds, coords={"X": {"center": "xc", "left": "xl"}, "Y": {"center": "yc", "left": "yl"}},
                        face_connections=fc, autoparse_metadata=False, periodic=False, boundary=sub["boundary"], fill_value=sub["fill"])
     lab = ["face"] + [e[0] for e in sub["extra"]]
